@@ -136,7 +136,7 @@ theorem C02_partial (tf : Option Int) (htf : ∀ t, tf = some t → 0 < t) (fill
 refinement is proved), any timeframe, gap filling off or on: the closed candles of an earlier
 snapshot – with the node's readings and its helper series – are a prefix of every later one. -/
 theorem C02_trees (tf : Option Int) (htf : ∀ t, tf = some t → 0 < t) (fill : Bool) (k : Kind F)
-    (name : String) (round : Nat) (hk : CoveredTree name k) (init : List (Candle F))
+    (name : String) (round : Nat) (hk : CoveredTreeX name k) (init : List (Candle F))
     (chunks₁ chunks₂ : List (List (Candle F)))
     (hraw : RawTf (init ++ (chunks₁ ++ chunks₂).flatten)) (snap₁ snap₂ : List (Candle F))
     (h₁ : candlesOf (runIndicator (mkTop k name round) { tf := tf, fill := fill && tf.isSome } init chunks₁)
@@ -160,7 +160,7 @@ theorem C02_trees (tf : Option Int) (htf : ∀ t, tf = some t → 0 < t) (fill :
   | some t => exact T.closed_prefix (mgrSpecOf F (some t) htf fill) _ _ snap₁ snap₂ hok r₁ r₂
 
 /-- **Truncation of a batch run, trees** (base timeframe). -/
-theorem batch_truncation_trees (k : Kind F) (name : String) (round : Nat) (hk : CoveredTree name k)
+theorem batch_truncation_trees (k : Kind F) (name : String) (round : Nat) (hk : CoveredTreeX name k)
     (stream out : List (Candle F)) (hp : RawInput stream)
     (h : candlesOf (runBatch (mkTop k name round) {} stream) = .ok out) (n : Nat) :
     candlesOf (runBatch (mkTop k name round) {} (stream.take n)) = .ok (out.take n) := by
